@@ -96,7 +96,7 @@ def finalize(results, counters, tier, seed):
     miss = [r for r in want if rules.get(r, 0) == 0]
     if miss:
         inc.append("rules never injected (host never compiled?): %r" % miss)
-    cov = {"rule": "15 injectors (one per stated rule) x random legal hosts x position of the "
+    cov = {"rule": "16 injectors (at least one per stated rule; 15 rules) x random legal hosts x position of the "
                    "violation (tensor, term, tuple member, stack level, Einsum); the host must "
                    "compile (control); distinct = (rule, injected spec); non-trivial = host "
                    "compiled and the injected spec raised ValueError",
